@@ -284,6 +284,12 @@ func c14Process(rec *ev.Recorder, c c14Case) {
 	if ospec.Fill == "zero" {
 		ospec.Fill = "rand"
 	}
+	if ospec.Len == 0 {
+		// the empty payload (its CRC64 is 0): mixing in a frame of another *empty* payload changes nothing,
+		// so the other payload must carry bytes
+		ospec.Len = ospec.K + 3
+		ospec.Empty = false
+	}
 	other := c14chain.Build(ospec)
 	rng := rand.New(rand.NewSource(c.Spec.Seed ^ 0xfa17))
 	for _, f := range chain.Faults(rng, c.Dense) {
